@@ -56,6 +56,9 @@ func gowpUniverse() []types.Type {
 	out = append(out, mk(base)...)
 	// receivers whose types collide in the hash (array of int / slice of int8)
 	out = append(out, sig(v("r", types.NewArray(i0, 3)), nil, nil, false), sig(v("r", types.NewSlice(i8)), nil, nil, false))
+	// a struct whose tag list is shorter than its field list (types.NewStruct allows it)
+	out = append(out, types.NewStruct([]*types.Var{types.NewField(token.NoPos, pkg, "F", i0, false), types.NewField(token.NoPos, pkg, "G", i0, false)}, []string{"tag"}),
+		types.NewStruct([]*types.Var{types.NewField(token.NoPos, pkg, "F", i0, false), types.NewField(token.NoPos, pkg, "G", i0, false)}, []string{"tag"}))
 	// interfaces: empty, methods, embedded (fresh objects each: structurally equal, not pointer-equal)
 	for k := 0; k < 2; k++ {
 		out = append(out,
